@@ -344,4 +344,10 @@ def build(tier):
             O.append(o)
     O.append(Obligation('miner.locked_reward_from_reward', run_locked_reward, props_locked_reward,
                         descr='75% of rewards lock, vesting spec = 180 days / daily', bounds='reward unbounded', max_paths=100))
+    # withdrawals are blocked while early terminations are unprocessed: the backlog flag must be exact (shared with C05)
+    from . import C05
+    for n in ([0, 1, 2] if tier == 'quick' else [0, 1, 2, 3]):
+        O.append(Obligation('miner.Partition::pop_early_terminations[queue entries=%d]' % n, C05.run_pop_et(n), C05.props_pop_et,
+                            descr='has_more reported iff entries remain (the withdrawal gate relies on it); processed + remaining = queued',
+                            bounds='%d queue entries; sector sets by cardinality; CUT: Partition::validate_state' % n, max_paths=20000))
     return O
